@@ -46,7 +46,6 @@ FAM_TYPE = {
 }
 OBJECT_FAMILIES = ('boolobj', 'strobj', 'dateobj', 'manycat')
 TZAWARE = ('dttz_utc', 'dttz_0530')
-RE_FLAGS = re.UNICODE | re.DOTALL
 
 
 def nonnull(col):
@@ -295,15 +294,33 @@ def _in(values, v):
                if isinstance(w, str) == isinstance(v, str))
 
 
+# The documentation says only that a value must be "matched" by one of the
+# expressions: it does not say whether the match is anchored, nor under which
+# flags the expressions are compiled.  So an answer is definite only when it
+# is the same for every reading: whole-string match (-> satisfied) / no match
+# anywhere (-> failed), under each of plain, DOTALL, ASCII, ASCII|DOTALL.
+_FLAG_READINGS = (0, re.DOTALL, re.ASCII, re.ASCII | re.DOTALL)
+
+
 def rex_value_ok(s, rexes):
-    """'matched by at least one expression': certainly yes if some expression
-    matches the whole string, certainly no if none matches anywhere in it."""
-    comp = [re.compile(r, RE_FLAGS) for r in rexes]
-    for r in comp:
-        m = r.match(s)
-        if m is not None and m.end() == len(s) and m.start() == 0:
-            return True
-    if not any(r.search(s) for r in comp):
+    answers = set()
+    for flags in _FLAG_READINGS:
+        comp = [re.compile(r, flags) for r in rexes]
+        full = False
+        for r in comp:
+            m = r.match(s)
+            if m is not None and m.start() == 0 and m.end() == len(s):
+                full = True
+                break
+        if full:
+            answers.add(True)
+        elif not any(r.search(s) for r in comp):
+            answers.add(False)
+        else:
+            answers.add(UNSPEC)
+    if answers == set([True]):
+        return True
+    if answers == set([False]):
         return False
     return UNSPEC
 
